@@ -120,7 +120,7 @@ fn families(run: &mut Run, tier: Tier, prop: &str) {
     for &(b, _) in zmodel::tables::LL_BASE.iter() {
         for r in [(b as usize).saturating_sub(1), b as usize, b as usize + 1] {
             if r >= 8 && r + 40 <= B {
-                let mut v = unique(r, r as u32 + 1);
+                let mut v = cmp::skewed_unique(r, r as u32 + 1);
                 let head: Vec<u8> = v[..8].to_vec();
                 v.extend_from_slice(&head);
                 v.extend_from_slice(&head);
